@@ -92,7 +92,11 @@ func worker() {
 		enc.Encode(map[string]any{"start": i})
 		w.Flush()
 		r := &core.ScnResult{Index: i}
+		t0 := time.Now()
 		p.Run(tier, i, r)
+		if d := time.Since(t0); os.Getenv("VERIF_SLOW") != "" && d > 500*time.Millisecond {
+			fmt.Fprintf(os.Stderr, "SLOW scenario %d: %s\n", i, d)
+		}
 		enc.Encode(r)
 		w.Flush()
 	}
